@@ -1001,6 +1001,10 @@ impl Engine for RtSim {
     fn isolate() -> bool {
         true
     }
+    fn allow_unstable() -> bool {
+        // SystemController keeps its arbiters in a HashMap with RandomState
+        true
+    }
     fn budget(_: &str, tier: Tier) -> (u64, u64) {
         match tier {
             Tier::Quick => (40_000, 60),
